@@ -78,7 +78,9 @@ def cleanup (s : TD) (name : Nat) : TD :=
 
 /-- SessionTeardown.TerminateSession (no LCP callback, PADTRetries = 0: exactly one PADT) -/
 def terminate (s : TD) (name : Nat) : TD :=
-  cleanup { s with padt := bump s.padt name } name
+  match AMap.lookup s.objs name with
+  | some o => if o.tornDown then s else cleanup { s with padt := bump s.padt name } name
+  | none => s
 
 inductive Op where
   | mk (name mac : Nat) (authed hasIp : Bool)
